@@ -376,7 +376,21 @@ class PointCloud(Shape):
         ----------
         vector : ``(n_points,)`` `ndarray`
             The vector from which to create the points' array.
+
+        Raises
+        ------
+        ValueError
+            If the vector does not hold exactly ``n_points * n_dims`` values
+            (connectivity, colours, texture coordinates and labels are per
+            point and would no longer match).
         """
+        if vector.size != self.points.size:
+            raise ValueError(
+                "Expected a vector of {} values ({} {}D points); got {} "
+                "instead.".format(
+                    self.points.size, self.n_points, self.n_dims, vector.size
+                )
+            )
         self.points = vector.reshape([-1, self.n_dims])
 
     def __str__(self):
